@@ -170,6 +170,16 @@ def run(ctx, res):
                 seg = rest[: stop[0]] if stop else rest
                 if heads and any(x[0] == "copy" for x in seg):
                     copy_loops.add(heads[-1][1])
+    # the relocation loop: the range loop whose iterations write a relocated word back into DRAM
+    got_loops = set()
+    for o in outs:
+        effs = list(o.state.eff)
+        for idx, e in enumerate(effs):
+            if e[0] == "range-next":
+                heads = [x for x in effs[:idx] if x[0] == "loop-head"]
+                if heads and any(x[0] == "copy" and x[1] is not None and x[1][0] == "dram" and x[1][3] is True for x in effs[idx + 1:]):
+                    got_loops.add(heads[-1][1])
+    res.inventory["relocation_loops"] = sorted(got_loops)
     res.ob(len(copy_loops) == 1)
     if len(copy_loops) != 1:
         res.errors.append("expected exactly one segment-copy loop, found %r" % sorted(copy_loops))
@@ -179,7 +189,7 @@ def run(ctx, res):
     if L.ehdr is None:
         res.errors.append("the ELF header value was not identified (parse_elf_header32 not called?)")
     seg_seen = {"copy": 0, "skip": 0}
-    got_seen = {"step": 0, "er5": 0}
+    got_seen = {"step": 0, "er5": 0, "complete": 0}
     other_copy = 0
     for o in outs:
         st = o.state
@@ -250,7 +260,8 @@ def run(ctx, res):
                                 res.finding("segment|source-%s" % what.split(" ")[0], "the source %s of the segment copy is wrong" % what, witness(d))
                 else:
                     seg_seen["skip"] = 1
-                    bad = Mx.AND(care, is_load)
+                    # (a PT_LOAD header without file contents has nothing to copy)
+                    bad = Mx.AND(Mx.AND(care, is_load), Mx.NOT(bv.is_zero(get(facts, PH, ph, "size_in_file").bits)))
                     res.ob(bad == 0)
                     if bad != 0:
                         res.finding("segment|load-not-copied", "a PT_LOAD program header is not copied into memory", witness(bad))
@@ -277,6 +288,21 @@ def run(ctx, res):
             loadermod.check_table(res, sec[-1][1], "parse_section_header32", bv.zext(get(facts, EH, L.ehdr, "shnum").bits, 64), bv.zext(get(facts, EH, L.ehdr, "shoff").bits, 64),
                                   care, "got", "section loop (.got)", differs, witness)
         after = effs[effs.index(sec[-1]) + 1:]
+        # every section named .got is relocated: an iteration of the section loop that can be a .got section and
+        # completes (reaches the loop's back edge) must have gone through the relocation loop
+        heads_before = [x for x in effs[:effs.index(sec[-1])] if x[0] == "loop-head"]
+        if heads_before and got_loops:
+            h_sec = heads_before[-1][1]
+            completed = any(x[0] == "loop-back" and x[1] == h_sec for x in after)
+            entered = any(x[0] == "loop-enter" and x[1] in got_loops for x in after)
+            if completed:
+                # (a .got with no entry needs no relocation: sh_size / 4 == 0 is not a violation)
+                nonempty = Mx.NOT(bv.is_zero(bv.lshr_const(get(facts, SH, hdr, "size").bits, 2))) if isinstance(hdr, Agg) else 1
+                bad = Mx.AND(Mx.AND(care, is_got), nonempty) if not entered else 0
+                res.ob(bad == 0)
+                if bad != 0:
+                    res.finding("got|skipped", "a section named .got can pass through the section loop without being relocated (a guard skips the relocation loop)", witness(bad))
+                got_seen["complete"] = got_seen.get("complete", 0) or (1 if entered else 0)
         rn = [x for x in after if x[0] == "range-next"]
         if rn and "loop-back" in [x[0] for x in after] and isinstance(hdr, Agg):
             copies = [x for x in after[[x[0] for x in after].index("range-next"):] if x[0] == "copy"]
@@ -287,6 +313,14 @@ def run(ctx, res):
             if bad != 0:
                 res.finding("got|relocation-outside-got", "words of a section not named .got are relocated", witness(bad))
             got_seen["step"] = 1
+            # base case: the relocation loop starts at entry 0
+            ent_ = [x for x in after if x[0] == "loop-enter" and x[1] in got_loops]
+            if ent_:
+                starts = [v for k_, v in ent_[0][2].items() if k_.endswith(".start")]
+                okk = len(starts) == 1 and bv.to_int(starts[0]) == 0
+                res.ob(okk)
+                if not okk:
+                    res.finding("got|first-entry", "the relocation loop does not start at entry 0 of the .got", witness(care))
             i = rn[-1][1]
             addr = get(facts, SH, hdr, "addr").bits
             size = get(facts, SH, hdr, "size").bits
